@@ -185,6 +185,24 @@ fn main() {
                 println!("par {} kf={} u={} cosp={}", k, f32b(kf), bits(&u), ob(cs(&u, &up)));
                 k += 1;
             }
+            // ---- extreme magnitudes: every square and both squared norms are representable in f32, but the PRODUCT of
+            //      the two squared norms (formed by `cosine` before its sqrt) is not
+            for i in 0..(12 * reps) {
+                let n = rng.range(1, 40) as usize;
+                let e0 = (31 + rng.below(15) as i32) * if i % 2 == 0 { 1 } else { -1 };
+                let u: Vec<f32> = (0..n).map(|_| val(&mut rng, e0)).collect();
+                let v: Vec<f32> = (0..n).map(|_| val(&mut rng, e0)).collect();
+                dist_case(k, "extreme", &u, &v);
+                k += 1;
+                let us: Vec<f32> = u.iter().map(|x| x * 2.0).collect();
+                let vs: Vec<f32> = v.iter().map(|x| x * 0.5).collect();
+                println!("scale {} kind=extreme ka={} kb={} u={} v={} cos={} coss={}", k, f32b(2.0), f32b(0.5), bits(&u), bits(&v), ob(cs(&u, &v)), ob(cs(&us, &vs)));
+                k += 1;
+                let kf = if i % 4 < 2 { 2.0f32 } else { -0.5 };
+                let up: Vec<f32> = u.iter().map(|x| x * kf).collect();
+                println!("par {} kind=extreme kf={} u={} cosp={}", k, f32b(kf), bits(&u), ob(cs(&u, &up)));
+                k += 1;
+            }
         }
         "replay" => {
             // lines: "pack in=<bits>" | "dist u=<bits> v=<bits>" | "tri a= b= c=" | "scale ka= kb= u= v=" | "par kf= u="
